@@ -64,6 +64,20 @@ def main():
                     res = {"status": "does-not-type-check-on-current-tree", "rules": []}
                 else:
                     res = {"status": "detected" if r.returncode == 1 and rules else "missed", "rules": rules}
+                if res["status"] == "missed":
+                    # not reported by its own property's check: is it reported by another claimed check?
+                    claimed = [c["property_id"] for c in json.load(open(ROOT + "/MANIFEST.json"))["checks"]]
+                    others = []
+                    for op in claimed:
+                        if op == prop:
+                            continue
+                        shutil.rmtree(work + "/v/evidence", ignore_errors=True); os.makedirs(work + "/v/evidence")
+                        r2 = subprocess.run([ROOT + "/bin/origamilint", "-prop", op, "-tier", "quick", "-repo", REPO, "-verif", work + "/v", "-overlay", work + "/ov.json"], capture_output=True, text=True)
+                        o2 = r2.stdout + r2.stderr
+                        if r2.returncode == 1:
+                            others += sorted(set(re.findall(r'rule=(\S+)', "\n".join(l for l in o2.splitlines() if "rule=" in l and "KNOWN-FINDING" not in l))))
+                    if others:
+                        res = {"status": "missed-by-own-check, detected-by-other", "rules": others}
         finally:
             shutil.rmtree(work, ignore_errors=True)
         head = subprocess.run(["git", "-C", REPO, "rev-parse", "--short", "HEAD"], capture_output=True, text=True).stdout.strip()
